@@ -7,7 +7,7 @@
 //     SaveGlobals write and its destination, Close/Sync on the handle, os.Rename / os.Remove with their
 //     arguments), each with the file-affecting calls found in the `if err != nil { ... }` block that follows it;
 //   * the state-file name (repl.AutoSaveFile, resolved through string constants);
-//   * the body of eval.State.UpdateNumSet (normalised statements);
+//   * what eval.State.UpdateNumSet and State.SaveGlobals return and store (symbolic summary, see summarize);
 //   * how Environment.SaveGlobals writes: the Fprintf calls on its destination (one Write per binding).
 // Anything the walker does not recognise (a nested / conditional / deferred file operation, an os.* call it has
 // no constructor for, an extra return between the steps) is emitted as OpOther "<text>", so the generated
@@ -130,6 +130,7 @@ type asWalker struct {
 	// inside an inlined callee: parameter name -> Coq fref term of the argument it was called with
 	// (the caller's handle, handle.Name(), or a constant path)
 	refs map[string]string
+	sym  *symRun // symbolic values of local variables, for the canonical rendering of the prelude
 }
 
 func (w *asWalker) fref(e ast.Expr) string {
@@ -549,6 +550,17 @@ func (w *asWalker) walk(stmts []ast.Stmt, col *asCollector, hasPrior bool, depth
 								}
 							}
 						}
+						pj := 0
+						if fd.Type.Params != nil {
+							for _, f := range fd.Type.Params.List {
+								for _, nm := range f.Names {
+									if pj < len(ce.Args) {
+										w2.symEnv().params[nm.Name] = w.symEnv().expr(ce.Args[pj])
+									}
+									pj++
+								}
+							}
+						}
 						sub := &asCollector{}
 						w2.walk(fd.Body.List, sub, prior, depth+1, append(append([]string{}, stack...), fd.Name.Name))
 						if !prior {
@@ -566,6 +578,16 @@ func (w *asWalker) walk(stmts []ast.Stmt, col *asCollector, hasPrior bool, depth
 						flushUnchecked() // result dropped on the floor
 					}
 					continue
+				}
+			}
+		}
+		// a local that merely names the handle's path or a constant path (`tmpName := f.Name()`): no I/O, remember it
+		if as, ok := st.(*ast.AssignStmt); ok && len(as.Lhs) == 1 && len(as.Rhs) == 1 && len(w.opsIn(as)) == 0 {
+			if id, ok := as.Lhs[0].(*ast.Ident); ok && id.Name != "_" {
+				if r := w.fref(as.Rhs[0]); !strings.HasPrefix(r, "(FUnknown") {
+					w.refs[id.Name] = r
+				} else {
+					delete(w.refs, id.Name)
 				}
 			}
 		}
@@ -598,7 +620,7 @@ func (w *asWalker) walk(stmts []ast.Stmt, col *asCollector, hasPrior bool, depth
 		}
 		if len(ops) == 0 {
 			if !prior {
-				col.prelude = append(col.prelude, preludeText(fset, st))
+				col.prelude = append(col.prelude, w.preludeLines(st)...)
 			} else if _, ok := st.(*ast.ReturnStmt); ok && i != len(stmts)-1 {
 				col.steps = append(col.steps, asStep{op: other("early return between steps: " + srcText(fset, st))})
 			}
@@ -620,12 +642,417 @@ func (w *asWalker) walk(stmts []ast.Stmt, col *asCollector, hasPrior bool, depth
 	flushUnchecked()
 }
 
+// ---- symbolic summary of a small straight-line method: independent of local variable names, of the name of the
+// private field(s) it stores into, of single versus tuple assignment, of named versus explicit results, and of
+// zero-argument one-line helper methods of the same receiver type (inlined).  Anything else in the body (branches,
+// loops, other statements) makes the summary start with "unrecognised:" followed by the source text.
+type symRun struct {
+	pkg    string
+	fset   *token.FileSet
+	recv   string
+	rtype  string
+	params map[string]string
+	vars   map[string]string
+	fields map[string]string // stored field -> canonical name
+	asts   map[string]ast.Expr // local -> the expression it was last assigned (single-valued assignments)
+	order  []string
+	ok     bool
+	depth  int
+}
+
+func recvOf(fd *ast.FuncDecl) (name, typ string) {
+	if fd.Recv == nil || len(fd.Recv.List) != 1 {
+		return "", ""
+	}
+	t := fd.Recv.List[0].Type
+	if st, ok := t.(*ast.StarExpr); ok {
+		t = st.X
+	}
+	if id, ok := t.(*ast.Ident); ok {
+		typ = id.Name
+	}
+	if len(fd.Recv.List[0].Names) == 1 {
+		name = fd.Recv.List[0].Names[0].Name
+	}
+	return
+}
+
+func (r *symRun) expr(e ast.Expr) string {
+	switch x := e.(type) {
+	case *ast.Ident:
+		if x.Name == r.recv && r.recv != "" {
+			return "s"
+		}
+		if v, ok := r.vars[x.Name]; ok {
+			return v
+		}
+		if v, ok := r.params[x.Name]; ok {
+			return v
+		}
+		return x.Name
+	case *ast.BasicLit:
+		return x.Value
+	case *ast.ParenExpr:
+		return r.expr(x.X)
+	case *ast.SelectorExpr:
+		if id, ok := x.X.(*ast.Ident); ok && id.Name == r.recv && r.recv != "" {
+			if v, ok := r.vars["s."+x.Sel.Name]; ok {
+				return v
+			}
+			if c, ok := r.fields[x.Sel.Name]; ok {
+				return "init(" + c + ")"
+			}
+			return "s." + x.Sel.Name
+		}
+		return r.expr(x.X) + "." + x.Sel.Name
+	case *ast.UnaryExpr:
+		return x.Op.String() + r.expr(x.X)
+	case *ast.BinaryExpr:
+		return "(" + r.expr(x.X) + " " + x.Op.String() + " " + r.expr(x.Y) + ")"
+	case *ast.CallExpr:
+		// zero-argument one-line helper of the same receiver type: inline its returned expression
+		if se, ok := x.Fun.(*ast.SelectorExpr); ok && len(x.Args) == 0 && r.depth < 2 {
+			if id, ok := se.X.(*ast.Ident); ok && id.Name == r.recv && r.recv != "" {
+				if fd, _ := findFunc(r.pkg, r.rtype, se.Sel.Name); fd != nil && len(fd.Body.List) == 1 {
+					if ret, ok := fd.Body.List[0].(*ast.ReturnStmt); ok && len(ret.Results) == 1 {
+						hn, _ := recvOf(fd)
+						sub := &symRun{pkg: r.pkg, fset: r.fset, recv: hn, rtype: r.rtype, params: map[string]string{}, vars: map[string]string{}, fields: r.fields, ok: true, depth: r.depth + 1}
+						for k, v := range r.vars { // current values of the receiver's fields are visible to the helper
+							if strings.HasPrefix(k, "s.") {
+								sub.vars[k] = v
+							}
+						}
+						v := sub.expr(ret.Results[0])
+						r.ok = r.ok && sub.ok
+						return v
+					}
+				}
+			}
+		}
+		args := make([]string, len(x.Args))
+		for i, a := range x.Args {
+			args[i] = r.expr(a)
+		}
+		return r.expr(x.Fun) + "(" + strings.Join(args, ", ") + ")"
+	}
+	return "?" + srcText(r.fset, e)
+}
+
+func summarize(pkgDir string, fd *ast.FuncDecl) []string {
+	p := pkgs[pkgDir]
+	rn, rt := recvOf(fd)
+	r := &symRun{pkg: pkgDir, fset: p.fset, recv: rn, rtype: rt, params: map[string]string{}, vars: map[string]string{}, fields: map[string]string{}, ok: true}
+	pi := 0
+	if fd.Type.Params != nil {
+		for _, f := range fd.Type.Params.List {
+			for _, nm := range f.Names {
+				r.params[nm.Name] = fmt.Sprintf("ARG%d", pi)
+				pi++
+			}
+		}
+	}
+	// fields of the receiver that are stored into, in source order
+	ast.Inspect(fd.Body, func(n ast.Node) bool {
+		if as, ok := n.(*ast.AssignStmt); ok {
+			for _, l := range as.Lhs {
+				if se, ok := l.(*ast.SelectorExpr); ok {
+					if id, ok := se.X.(*ast.Ident); ok && id.Name == rn && rn != "" {
+						if _, seen := r.fields[se.Sel.Name]; !seen {
+							r.fields[se.Sel.Name] = ""
+							r.order = append(r.order, se.Sel.Name)
+						}
+					}
+				}
+			}
+		}
+		return true
+	})
+	for i, f := range r.order {
+		if len(r.order) == 1 {
+			r.fields[f] = "FIELD"
+		} else {
+			r.fields[f] = fmt.Sprintf("FIELD%d", i+1)
+		}
+	}
+	var named []string
+	if fd.Type.Results != nil {
+		for _, f := range fd.Type.Results.List {
+			for _, nm := range f.Names {
+				named = append(named, nm.Name)
+			}
+		}
+	}
+	var results []string
+	returned := false
+	for i, st := range fd.Body.List {
+		switch x := st.(type) {
+		case *ast.ExprStmt:
+			if ce, ok := x.X.(*ast.CallExpr); ok && isVerifOrLog(ce) {
+				continue
+			}
+			r.ok = false
+		case *ast.AssignStmt:
+			if x.Tok != token.ASSIGN && x.Tok != token.DEFINE {
+				r.ok = false
+				break
+			}
+			var vals []string
+			if len(x.Rhs) == len(x.Lhs) {
+				for _, e := range x.Rhs {
+					vals = append(vals, r.expr(e))
+				}
+			} else if len(x.Rhs) == 1 {
+				v := r.expr(x.Rhs[0])
+				for k := range x.Lhs {
+					vals = append(vals, fmt.Sprintf("%s#%d", v, k))
+				}
+			} else {
+				r.ok = false
+				break
+			}
+			for k, l := range x.Lhs {
+				switch lx := l.(type) {
+				case *ast.Ident:
+					if lx.Name != "_" {
+						r.vars[lx.Name] = vals[k]
+					}
+				case *ast.SelectorExpr:
+					if id, ok := lx.X.(*ast.Ident); ok && id.Name == rn && rn != "" {
+						r.vars["s."+lx.Sel.Name] = vals[k]
+					} else {
+						r.ok = false
+					}
+				default:
+					r.ok = false
+				}
+			}
+		case *ast.ReturnStmt:
+			if i != len(fd.Body.List)-1 {
+				r.ok = false
+				break
+			}
+			returned = true
+			if len(x.Results) == 0 {
+				for _, nm := range named {
+					if v, ok := r.vars[nm]; ok {
+						results = append(results, v)
+					} else {
+						results = append(results, "zero")
+					}
+				}
+			} else {
+				for _, e := range x.Results {
+					results = append(results, r.expr(e))
+				}
+			}
+		default:
+			r.ok = false
+		}
+	}
+	if !r.ok || (!returned && fd.Type.Results != nil && len(fd.Type.Results.List) > 0) {
+		out := []string{"unrecognised:"}
+		for _, st := range fd.Body.List {
+			out = append(out, srcText(p.fset, st))
+		}
+		return out
+	}
+	// `a, b := f(x); return a, b` is `return f(x)`
+	if len(results) > 1 {
+		base, all := strings.TrimSuffix(results[0], "#0"), true
+		for i, v := range results {
+			all = all && v == fmt.Sprintf("%s#%d", base, i)
+		}
+		if all {
+			results = []string{base}
+		}
+	}
+	var out []string
+	for i, v := range results {
+		out = append(out, fmt.Sprintf("result%d = %s", i, v))
+	}
+	for _, f := range r.order {
+		out = append(out, r.fields[f]+" := "+r.vars["s."+f])
+	}
+	return out
+}
+
+// ---- canonical prelude: the statements before the first file operation, rendered by what they do.
+// Locals are replaced by their symbolic values (so `u := a - b; if u == 0` and `if a == b` read the same), the
+// function's parameters are ARGi, every call evaluated is listed once, in order, as "eval <call>", an early return is
+// "if <condition> return <results>"; pure assignments and log calls leave no line.  `x - y == 0` is `x == y` and the
+// operands of == / != are put in a fixed order.
+func (w *asWalker) symEnv() *symRun {
+	if w.sym == nil {
+		w.sym = &symRun{pkg: "repl", fset: w.fset, params: map[string]string{}, vars: map[string]string{}, fields: map[string]string{}, ok: true}
+	}
+	return w.sym
+}
+
+func (r *symRun) resolveAST(e ast.Expr) ast.Expr {
+	for i := 0; i < 8; i++ {
+		switch x := e.(type) {
+		case *ast.ParenExpr:
+			e = x.X
+			continue
+		case *ast.Ident:
+			if a, ok := r.asts[x.Name]; ok {
+				e = a
+				continue
+			}
+		}
+		break
+	}
+	return e
+}
+
+func isZeroLit(e ast.Expr) bool {
+	if p, ok := e.(*ast.ParenExpr); ok {
+		return isZeroLit(p.X)
+	}
+	b, ok := e.(*ast.BasicLit)
+	return ok && b.Kind == token.INT && b.Value == "0"
+}
+
+func (r *symRun) cond(e ast.Expr) string {
+	switch x := e.(type) {
+	case *ast.ParenExpr:
+		return r.cond(x.X)
+	case *ast.UnaryExpr:
+		if x.Op == token.NOT {
+			return "!" + r.cond(x.X)
+		}
+	case *ast.BinaryExpr:
+		switch x.Op {
+		case token.LAND, token.LOR:
+			return "(" + r.cond(x.X) + " " + x.Op.String() + " " + r.cond(x.Y) + ")"
+		case token.EQL, token.NEQ:
+			a, b := x.X, x.Y
+			if isZeroLit(a) {
+				a, b = b, a
+			}
+			if isZeroLit(b) { // d == 0 with d = p - q  (wrap-around integers: the same as p == q)
+				if sub, ok := r.resolveAST(a).(*ast.BinaryExpr); ok && sub.Op == token.SUB {
+					a, b = sub.X, sub.Y
+				}
+			}
+			l, rr := r.expr(a), r.expr(b)
+			if rr < l {
+				l, rr = rr, l
+			}
+			return "(" + l + " " + x.Op.String() + " " + rr + ")"
+		}
+	}
+	return r.expr(e)
+}
+
+func (w *asWalker) preludeLines(st ast.Stmt) []string {
+	r := w.symEnv()
+	var calls []string
+	collect := func(n ast.Node) {
+		ast.Inspect(n, func(x ast.Node) bool {
+			if ce, ok := x.(*ast.CallExpr); ok && !isVerifOrLog(ce) {
+				calls = append(calls, "eval "+r.expr(ce))
+			}
+			return true
+		})
+	}
+	switch x := st.(type) {
+	case *ast.DeclStmt: // var x T : pure
+		if gd, ok := x.Decl.(*ast.GenDecl); ok && gd.Tok == token.VAR {
+			pure := true
+			for _, sp := range gd.Specs {
+				if vs, ok := sp.(*ast.ValueSpec); ok && len(vs.Values) > 0 {
+					pure = false
+				}
+			}
+			if pure {
+				return nil
+			}
+		}
+	case *ast.AssignStmt:
+		if x.Tok != token.ASSIGN && x.Tok != token.DEFINE {
+			break
+		}
+		allIdent := true
+		for _, l := range x.Lhs {
+			if _, ok := l.(*ast.Ident); !ok {
+				allIdent = false
+			}
+		}
+		if !allIdent {
+			break
+		}
+		for _, e := range x.Rhs {
+			collect(e)
+		}
+		var vals []string
+		if len(x.Rhs) == len(x.Lhs) {
+			for _, e := range x.Rhs {
+				vals = append(vals, r.expr(e))
+			}
+		} else if len(x.Rhs) == 1 {
+			v := r.expr(x.Rhs[0])
+			for k := range x.Lhs {
+				vals = append(vals, fmt.Sprintf("%s#%d", v, k))
+			}
+		} else {
+			break
+		}
+		for k, l := range x.Lhs {
+			if id := l.(*ast.Ident); id.Name != "_" {
+				r.vars[id.Name] = vals[k]
+				if len(x.Rhs) == len(x.Lhs) {
+					if r.asts == nil {
+						r.asts = map[string]ast.Expr{}
+					}
+					r.asts[id.Name] = x.Rhs[k]
+				} else {
+					delete(r.asts, id.Name)
+				}
+			}
+		}
+		return calls
+	case *ast.IfStmt:
+		if x.Init != nil || x.Else != nil {
+			break
+		}
+		var rest []ast.Stmt
+		for _, b := range x.Body.List {
+			if es, ok := b.(*ast.ExprStmt); ok {
+				if ce, ok := es.X.(*ast.CallExpr); ok && isVerifOrLog(ce) {
+					continue
+				}
+			}
+			rest = append(rest, b)
+		}
+		if len(rest) == 1 {
+			if ret, ok := rest[0].(*ast.ReturnStmt); ok {
+				collect(x.Cond)
+				var res []string
+				for _, e := range ret.Results {
+					collect(e)
+					res = append(res, r.expr(e))
+				}
+				return append(calls, "if "+r.cond(x.Cond)+" return "+strings.Join(res, ", "))
+			}
+		}
+	}
+	return []string{"stmt " + preludeText(w.fset, st)}
+}
+
 func genAutoSave() {
 	fd, fset := findFunc("repl", "", "AutoSave")
 	if fd == nil {
 		fatal("repl.AutoSave not found")
 	}
 	w := &asWalker{fset: fset, refs: map[string]string{}}
+	pi := 0
+	for _, f := range fd.Type.Params.List {
+		for _, nm := range f.Names {
+			w.symEnv().params[nm.Name] = fmt.Sprintf("ARG%d", pi)
+			pi++
+		}
+	}
 	col := &asCollector{}
 	w.walk(fd.Body.List, col, false, 0, []string{"AutoSave"})
 	steps, prelude := col.steps, col.prelude
@@ -657,32 +1084,29 @@ func genAutoSave() {
 	}
 	b.WriteString("].\n\n")
 
-	// eval.State.UpdateNumSet
-	un, ufset := findFunc("eval", "State", "UpdateNumSet")
+	// eval.State.UpdateNumSet and eval.State.SaveGlobals: what they return and store, not how they are spelled
+	un, _ := findFunc("eval", "State", "UpdateNumSet")
 	if un == nil {
 		fatal("eval.State.UpdateNumSet not found")
 	}
-	b.WriteString("(* body of eval.State.UpdateNumSet (named results oldvalue, newvalue) *)\nDefinition updatenumset_body : list string :=\n  [")
-	for i, st := range un.Body.List {
-		if i > 0 {
-			b.WriteString(";\n   ")
+	writeList := func(l []string) {
+		for i, x := range l {
+			if i > 0 {
+				b.WriteString(";\n   ")
+			}
+			b.WriteString(coqString(x))
 		}
-		b.WriteString(coqString(srcText(ufset, st)))
 	}
+	b.WriteString("(* effect of eval.State.UpdateNumSet, from a symbolic run of its straight-line body: results in order, then\n   the stores into fields of the receiver; FIELD = the (private) field it stores into, init(FIELD) = that field's\n   value on entry, ARGi = the i-th parameter, s = the receiver *)\nDefinition updatenumset_body : list string :=\n  [")
+	writeList(summarize("eval", un))
 	b.WriteString("].\n\n")
 
-	// eval.State.SaveGlobals forwards to the environment; Environment.SaveGlobals writes with Fprintf only
-	sg, sfset := findFunc("eval", "State", "SaveGlobals")
+	sg, _ := findFunc("eval", "State", "SaveGlobals")
 	if sg == nil {
 		fatal("eval.State.SaveGlobals not found")
 	}
-	b.WriteString("(* body of eval.State.SaveGlobals *)\nDefinition state_saveglobals_body : list string :=\n  [")
-	for i, st := range sg.Body.List {
-		if i > 0 {
-			b.WriteString(";\n   ")
-		}
-		b.WriteString(coqString(srcText(sfset, st)))
-	}
+	b.WriteString("(* effect of eval.State.SaveGlobals (same notation) *)\nDefinition state_saveglobals_body : list string :=\n  [")
+	writeList(summarize("eval", sg))
 	b.WriteString("].\n\n")
 	eg, efset := findFunc("object", "Environment", "SaveGlobals")
 	if eg == nil {
